@@ -12,7 +12,9 @@ Nothing here decides a property.  The pieces:
 * the class predicates of known_findings.json (KF_F1, KF_F3, KF_D7, KF_N4) as plain Python
   functions of the bytes, and `model_reproduces` (ask the driver for the same runs).
 """
+import bisect
 import concurrent.futures as cf
+import itertools
 import logging
 import re
 import struct
@@ -238,18 +240,14 @@ def model_cost(fmt, n, sizes, meta_off=None):
     k = len(sizes)
     if k <= 3:
         return cost + sum(min(n, b) - a for a, b in spans if a < n)
+    ends = list(itertools.accumulate(sizes))
     for a, b in spans:
         b = min(b, n)
         if a >= b:
             continue
-        pos = 0
-        for s in sizes:
-            lo, pos = pos, pos + s
-            if pos <= a:
-                continue
-            if lo >= b:
-                break
-            cost += min(pos, b) - a
+        i = bisect.bisect_right(ends, a)           # first chunk ending after a
+        j = bisect.bisect_left(ends, b)            # first chunk ending at or after b
+        cost += sum(ends[i:j]) - a * (j - i) + (b - a if j < k else 0)
     return cost
 
 
@@ -509,6 +507,8 @@ def mutated(fmt, rng, count=None):
     for tag, kw in table:
         if fmt == 'vhdx':
             kw = dict({'meta_off': 256 * K}, **kw)
+        elif fmt == 'luks' and 'body_len' not in kw:
+            kw = dict(kw, body_len=rng.choice([0, 100, 700]))
         data, bounds = images.BUILDERS[fmt](**kw)
         out.append(Img(fmt, data, bounds, 'mut/%s/%s' % (fmt, tag), params=_jsonable(kw)))
     return out
